@@ -11,7 +11,7 @@ mkdir -p $S/mir $S/evidence
 [ -d $S/mir-target ] || cp -a /verif/.cache/mir-target $S/mir-target
 [ -d $S/replay-target ] || { mkdir -p $S/replay-target; cp -a /verif/.cache/replay-target/debug $S/replay-target/debug; }
 [ -d $WT ] || git -C /repo worktree add -q --detach $WT HEAD || exit 2
-git -C $WT checkout -q -- . ; git -C $WT apply $P || { echo "patch does not apply"; exit 2; }
+git -C $WT checkout -q -- . ; git -C $WT checkout -q --detach $(git -C /repo rev-parse HEAD); git -C $WT apply $P || { echo "patch does not apply"; exit 2; }
 export VERIF_REPO=$WT VERIF_MIRDIR=$S/mir VERIF_MIR_TARGET=$S/mir-target VERIF_REPLAY_TARGET=$S/replay-target VERIF_EVIDENCE_DIR=$S/evidence
 for c in "$@"; do
   (cd /verif && timeout 3000 ./check $c > $S/seedrun_$c.log 2>&1; echo "check $c exit=$? $(grep -c '^VIOLATION' $S/seedrun_$c.log) violation lines; $(grep -E '^VIOLATION' $S/seedrun_$c.log | head -3 | tr '\n' ' ')"; grep -E '^\s+C[0-9]+\.\S+\s+(CEX|INCONCLUSIVE|ERROR)' $S/seedrun_$c.log | cut -c1-150; grep -E 'note: SAT' $S/seedrun_$c.log | head -8 | cut -c1-220)
